@@ -65,16 +65,14 @@ Theorem C01_failed_op_is_noop_on_chain :
 Proof. exact failed_addblocks_noop. Qed.
 Print Assumptions C01_failed_op_is_noop_on_chain.
 
-(** A failed AddValidatedV2Blocks leaves the best chain as before; the only thing that
-    can change for a best-chain block is that a submitted block's (pruned) body is stored
-    again, together with its supplement and full state. *)
+(** A failed AddValidatedV2Blocks likewise: best chain and the store record of every block
+    on it exactly as before (blocks already on the best chain are skipped, so a pruned
+    body is never stored again). *)
 Theorem C01_failed_validated_is_noop_on_chain :
   ∀ U, WF U → ∀ ops, ops_pre U ops → ∀ l m' nt, validated_pre U l →
     mstep U (mrun U ops) (AddValidated l) = (m', Err, nt) →
     nt = false ∧ best m' = best (mrun U ops) ∧
-    ∀ b, b ∈ best (mrun U ops) →
-      known m' !! b = known (mrun U ops) !! b ∨
-      (b ∈ l ∧ known m' !! b = Some (KI (Some SFull) true true)).
+    ∀ b, b ∈ best (mrun U ops) → known m' !! b = known (mrun U ops) !! b.
 Proof. exact failed_addvalidated_noop. Qed.
 Print Assumptions C01_failed_validated_is_noop_on_chain.
 
